@@ -2,16 +2,18 @@
    Proved here: the obfuscation layer every block/undo file byte passes through
    (Obfuscation::operator(), util/obfuscation.h), transcribed at the word level (memcpy into a
    uint64, ^= rotated key, memcpy back; alignment prologue; 64-byte and 8-byte chunk loops).
-   The full statement of C17 also covers record framing (magic, size, MAX_SIZE), the header-hash and
-   undo checksum comparisons and the file sequence; those are NOT modelled here (see LEVEL_NOTE in
-   props/C17.py):
-     read_write_block      : after any sequence of WriteBlock calls, ReadRawBlock at each returned
-                             position returns the written bytes
-     framing_detected      : magic mismatch or size > MAX_SIZE  =>  ReadRawBlock fails
-     hash_mismatch_detected, undo_checksum_detected, corrupt_never_connected (under hash premises)
+   and the block record layer (WriteBlock's record layout, ReadRawBlock, ReadBlock up to the hash
+   tests, which are a parameter `header_ok`).
+   NOT proved (see LEVEL_NOTE in props/C17.py): the statements that need a model of SHA256d / merkle
+   roots or of the file sequence:
+     hash_mismatch_detected  : a changed header no longer hashes to the indexed block (hash premise)
+     undo_checksum_detected  : a changed undo payload fails the checksum (hash premise); the model
+                               function undo_read_ok_after_flip records what ReadBlockUndo looks at
+     corrupt_never_connected : a changed transaction changes the merkle root or fails to parse
+     FlatFileSeq allocation / file switching / pruning
    Only statements here; each is closed by `exact` of a lemma from proofs/SerStoreLemmas.v. *)
 From Coq Require Import NArith.
-From BV Require Import lib.Ints gen.Params_gen model.SerBase model.SerStore proofs.SerBaseLemmas proofs.SerStoreLemmas.
+From BV Require Import lib.Ints gen.Params_gen model.SerBase model.SerTx model.SerStore proofs.SerBaseLemmas proofs.SerStoreLemmas.
 Local Open Scope Z_scope.
 
 (* For every 8-byte key, every key offset, every buffer address (misalign = address mod 8) and every
@@ -46,6 +48,37 @@ Theorem C17_obfuscation_chunked_partial : forall key key_offset m m1 m2 a b,
   obfuscate key key_offset m1 a ++ obfuscate key (key_offset + Z.of_nat (length a)) m2 b.
 Proof. exact obf_chunked. Qed.
 Print Assumptions C17_obfuscation_chunked_partial.
+
+(* ---- block records ---- *)
+
+(* Read after write: wherever the record sits in its file - after any earlier records, before any
+   later records or preallocated space - ReadRawBlock at the position WriteBlock returned gives
+   back exactly the bytes written (every payload up to MAX_SIZE). *)
+Theorem C17_read_write_block_partial : forall magic pre payload post,
+  length magic = 4%nat -> Z.of_nat (length payload) <= MAX_SIZE ->
+  read_raw_block magic (pre ++ write_record magic payload ++ post) (Z.of_nat (length pre) + 8) = Some payload.
+Proof. exact read_write_block. Qed.
+Print Assumptions C17_read_write_block_partial.
+
+(* Framing: anything ReadRawBlock returns is the payload of a well-framed record at that position
+   (network magic, size field = length of the data <= MAX_SIZE, all bytes present).  Hence a record
+   whose magic was corrupted, whose size field exceeds MAX_SIZE or the data available, or a position
+   below 8, is a read failure and never returned. *)
+Theorem C17_framing_detected_partial : forall magic file pos data, bytes_ok file ->
+  read_raw_block magic file pos = Some data ->
+  8 <= pos /\ Z.of_nat (length data) <= MAX_SIZE /\
+  exists pre post, file = pre ++ write_record magic data ++ post /\ Z.of_nat (length pre) = pos - 8.
+Proof. exact read_raw_block_framed. Qed.
+Print Assumptions C17_framing_detected_partial.
+
+(* ReadBlock returns a block only from a well-framed record whose payload deserialises and whose
+   header passes the hash tests (proof of work, equality with the indexed hash) *)
+Theorem C17_read_block_checks_partial : forall header_ok magic file pos, bytes_ok file ->
+  read_block header_ok magic file pos = true ->
+  exists data b rest, read_raw_block magic file pos = Some data /\
+    unser_block true data = Ok b rest /\ header_ok (b_header b) = true.
+Proof. exact read_block_true. Qed.
+Print Assumptions C17_read_block_checks_partial.
 
 Example C17_nonvacuous :
   let key := [1; 2; 3; 4; 5; 6; 7; 8]%N in
